@@ -263,7 +263,7 @@ def run_parent(pid, tier, seed, jobs):
 
     mod = load_check(pid)
     cfg = meta_of(mod, tier)
-    work = os.path.join(EVID, ".work", pid)
+    work = os.path.join(EVID, ".work", pid, f"run-{tier}-{seed}-{os.getpid()}")  # unique per run: concurrent runs of one check do not collide
     shutil.rmtree(work, ignore_errors=True)
     os.makedirs(work, exist_ok=True)
     t0 = time.monotonic()
